@@ -256,6 +256,12 @@ def act(it, name, a):
         it.apply(2)
     elif name == "apply3":
         it.apply(3)
+    elif name == "again":
+        # one more single-invocation request of the pool's own kind, with the same function as the earlier ones
+        if hasattr(it.pool, "start"):
+            it.start(1)
+        else:
+            it.apply(1)
     elif name == "start":
         it.start(clip(a, 0, 2))
     elif name == "start2":
